@@ -139,7 +139,7 @@ static void errors_case(Case& c) {
         break; }
     case 10: {
         // treatment dates inside / outside the schedule
-        Date st(rng.in(2018, 2024), rng.in(1, 12), 1), en(st); en.add_days((unsigned)rng.in(60, 400));
+        Date st(rng.in(2018, 2024), rng.in(1, 12), 1), en(st); en.add_days((unsigned)rng.in(120, 400));
         Scheduler s(st, en, rng.coin() ? StepUnit::Month : StepUnit::Week, (unsigned)rng.in(1, 3));
         unsigned k = s.get_num_steps();
         for (int t = 0; t < 6; t++) {
